@@ -127,6 +127,17 @@ Definition dec_snapshot (h : list op) (l : list Z) : state * Z * list Z :=
   let '(qs, r) := decode_seq (dec_q h) l in
   (snapshot_state qs, fold_right (fun x acc => let '(_, _, _, _, k) := x in k + acc) 0 qs, r).
 
+(* the model's ghost "counted request" of every cached pod is the request of the object the history
+   delivered last for that pod (the link between the proved invariant and [mk_pinfo]); evaluated on
+   every case as an assertion about the model itself: clause 97 *)
+Definition ghost_matches (h : list op) (s : state) : bool :=
+  forallb (fun q =>
+    forallb (fun pi =>
+      match last_obj h (pi_id pi) None with
+      | Some p => veqb (pi_areq pi) (p_req p) && veqb (pi_anp pi) (p_npreq p)
+      | None => false
+      end) (st_p s (q_name q))) (st_sh s).
+
 (* walk the history with the model state alongside (only to evaluate the informer discipline);
    every snapshot up to the first operation outside the discipline must satisfy the property *)
 Fixpoint check_steps (fuel : nat) (s : state) (done rest : list op) (obs : list Z) : Z :=
@@ -137,9 +148,11 @@ Fixpoint check_steps (fuel : nat) (s : state) (done rest : list op) (obs : list 
         | [] => 99                                  (* a snapshot is missing *)
         | _ =>
             let h := done ++ [o] in
+            let s' := step s o in
             let '(snap, leak, obs') := dec_snapshot h obs in
-            let c := if leak =? 0 then state_code snap else 13 in   (* 13: the mask was not applied *)
-            if c =? 0 then check_steps f (step s o) h t obs' else c
+            let c := if negb (ghost_matches h s') then 97
+                     else if leak =? 0 then state_code snap else 13 in   (* 13: the mask was not applied *)
+            if c =? 0 then check_steps f s' h t obs' else c
         end
       else 0
   | _, _ => 0
